@@ -16,6 +16,7 @@ TECHNIQUE = ('reaching definitions on the CFG: every return / last definition is
 UNITS = [
     "src/celeritas/global/alongstep/AlongStepUniformMscAction.cc",
     "src/celeritas/global/alongstep/AlongStepRZMapFieldMscAction.cc",
+    "src/celeritas/grid/ValueGridBuilder.cc",
 ]
 D = C + "detail::"
 
@@ -125,6 +126,10 @@ def run(db, cx):
 
     # 5 ------------------------------------------- table lookups stay inside the table
     lookup_in_range(db, cx)
+    # 7 ------------------------------------------- the scaled part of a table starts where the builder says
+    prime_index_correction(db, cx)
+    # 8 ------------------------------------------- a bin computed in floating point is bounded in integers
+    float_bin_bounded(db, cx)
 
 
 def lookup_in_range(db, cx):
@@ -210,3 +215,107 @@ def lookup_in_range(db, cx):
               why="outside the grid the bin index is garbage in this build (the precondition of "
                   "find is a debug assertion): the lookup reads past the table instead of "
                   "following the documented extrapolation")
+
+
+def prime_index_correction(db, cx):
+    """Sibling agreement inside ValueGridXsBuilder::build: the index of the first 1/E-scaled knot
+    is `find(log_eprime)` plus a roundoff correction; the statement after it asserts (debug only)
+    the predicate that defines the index.  The correction must test, for index+1, exactly the
+    predicate the assertion states for the index - otherwise there are grids for which the
+    assertion's belief is false in this build and XsCalculator un-scales the wrong knots."""
+    fs = db.get(C + "ValueGridXsBuilder::build")
+    cx.require(fs, "anchor ValueGridXsBuilder::build not found")
+    norm = lambda t: (t or "").replace(" ", "").replace("this->", "").replace("celeritas::", "")
+    for f in fs:
+        idx = [d["var"] for (_b, _i, d) in f.events("def") if d.get("kind") == "decl"
+               and any(x.endswith("Grid::find") for x in d.get("calls", []))]
+        cx.require(len(idx) == 1, "ValueGridXsBuilder::build: index from find() not found")
+        v = idx[0]
+        asserts = [blk["cond"] for blk in f.blocks.values() if blk.get("cond") and
+                   blk.get("tmacro", "").startswith("CELER_") and blk["cond"].get("ecalls")
+                   and v in blk["cond"].get("erefs", [])]
+        incs = [(b, i, d) for (b, i, d) in f.events("def") if d.get("var") == v and d.get("kind") == "incdec"]
+        cx.require(incs, "ValueGridXsBuilder::build: no roundoff correction of the index")
+        for (b, i, d) in incs:
+            guard = None
+            for br in f.branch_blocks(lambda c, _b: v in c.get("refs", []) + c.get("allrefs", [])):
+                if f.guarded_by_edge((b, i), br, f.cond_polarity_edge(br, True)):
+                    guard = f.blocks[br]["cond"]
+            want = [norm(a.get("core")) for a in asserts]
+            got = norm(guard.get("t")).replace(v + "+1", v) if guard else None
+            ok = guard is not None and (got in want if want else
+                                        any(x.endswith("soft_equal") for x in guard.get("calls", [])))
+            cx.ob("C14.7-prime-index", "ValueGridXsBuilder: the roundoff correction of the scaled-part "
+                  "index tests the predicate that defines the index", ok,
+                  "correction: `%s`; stated postcondition(s): %s" % (guard.get("t") if guard else None,
+                                                                    [a.get("core") for a in asserts]),
+                  short(d["loc"]),
+                  why="XsCalculator divides every knot from this index on by E: an index one too low "
+                      "(or high) returns xs/E (or xs*E) at a knot and leaves the neighbouring bins "
+                      "outside their knot values")
+
+
+def float_bin_bounded(db, cx):
+    """UniformGrid::find computes the bin by a floating-point division.  For a value just below
+    the last knot the quotient rounds to size-1, and every caller reads knot bin+1.  The bin that
+    is returned must therefore be bounded in the integer domain (a min/clamp against the size, or
+    a live - not debug-only - test against it) on every path from the division to the return."""
+    fs = db.get(C + "UniformGrid::find")
+    cx.require(fs, "anchor UniformGrid::find not found")
+    SZ = ("F:" + C + "UniformGridData::size", C + "UniformGrid::size")
+
+    def mentions_size(e):
+        return any(x in SZ for x in e.get("refs", []) + e.get("calls", []) + e.get("allrefs", [])
+                   + e.get("allcalls", []))
+    for f in fs[:1]:
+        rets = list(f.events("return"))
+        for (rb, ri, rev) in rets:
+            rv = local_refs(rev.get("refs", []))
+            if len(rv) != 1:
+                cx.ob("C14.8-bin-bounded", "UniformGrid::find returns a bounded bin", False,
+                      "return %s" % rev.get("t"), short(rev["loc"]))
+                continue
+            v = next(iter(rv))
+            fdefs = [(b, i, d) for (b, i, d) in f.events("def") if d.get("var") == v
+                     and "/" in d.get("rhs", "") and not any(x.endswith("::min") or x.endswith("::clamp")
+                                                             for x in d.get("calls", []))]
+            ok = True
+            why_not = ""
+            for (b, i, d) in fdefs:
+                # forward walk from the floating definition: stop at a redefinition that mentions
+                # the size, or at a live branch that compares the bin with the size
+                seen = set()
+                work = [(b, i + 1)]
+                while work and ok:
+                    cb, ci = work.pop()
+                    evs = f.blocks[cb]["ev"]
+                    stop = False
+                    for k in range(ci, len(evs)):
+                        e = evs[k]
+                        if e["e"] == "def" and e.get("var") == v and mentions_size(e):
+                            stop = True
+                            break
+                        if (cb, k) == (rb, ri):
+                            ok = False
+                            why_not = "the bin defined by `%s` reaches `return %s` unbounded" % (
+                                d.get("rhs"), v)
+                            stop = True
+                            break
+                    if stop:
+                        continue
+                    blk = f.blocks[cb]
+                    c = blk.get("cond")
+                    dbg = blk.get("tmacro", "").startswith(("CELER_EXPECT", "CELER_ASSERT", "CELER_ENSURE"))
+                    if c and not dbg and v in c.get("refs", []) + c.get("allrefs", []) \
+                            and mentions_size(c):
+                        continue
+                    for sx in f.succ(cb):
+                        if sx not in seen:
+                            seen.add(sx)
+                            work.append((sx, 0))
+            cx.ob("C14.8-bin-bounded", "UniformGrid::find: the bin from the floating-point division is "
+                  "bounded by the grid size before it is returned", ok and bool(fdefs) or (ok and not fdefs),
+                  why_not or ("%d floating definition(s), each bounded" % len(fdefs)), short(rev["loc"]),
+                  why="(value - front) / delta rounds up to size-1 for a value one ulp below the last "
+                      "knot; the callers then read knot size (past the table) - the bound on the "
+                      "result is only a debug assertion")
